@@ -13,6 +13,7 @@ import (
 
 	"github.com/scrapli/scrapligo/transport"
 	"github.com/scrapli/scrapligo/util"
+	"github.com/scrapli/scrapligo/util/simhook"
 )
 
 const (
@@ -242,6 +243,8 @@ func (d *Driver) Open() (reterr error) {
 		return err
 	}
 
+	simhook.Yield("nc.open.spawn")
+
 	go d.read()
 
 	return nil
@@ -254,6 +257,8 @@ func (d *Driver) Close() error {
 		d.Transport.Args.Host,
 		d.Transport.Args.Port,
 	)
+
+	simhook.Yield("nc.close.done")
 
 	d.done <- true
 
